@@ -1627,3 +1627,86 @@ func (r *Run) ReturnOnlyUnder(fnName, ret, cond, why string) {
 	}
 	r.pass("K2-return-only-under", fnName, construct, fmt.Sprintf("%d return site(s)", n), why, g0.File, g0.Line)
 }
+
+// sliceLoop finds the natural loop of the `for … range coll` over a slice with canonical path coll.
+func (r *Run) sliceLoop(fn *ssa.Function, coll string) (*ssa.BasicBlock, map[*ssa.BasicBlock]bool) {
+	env := r.P.Env(fn)
+	want := "lt((iter+1),len(" + coll + "))"
+	for _, b := range fn.Blocks {
+		ifi, ok := lastInstr(b).(*ssa.If)
+		if !ok || env.condOf(ifi.Cond).String() != want {
+			continue
+		}
+		inLoop := map[*ssa.BasicBlock]bool{b: true}
+		var work []*ssa.BasicBlock
+		for _, p := range b.Preds {
+			if b.Dominates(p) {
+				work = append(work, p)
+			}
+		}
+		for len(work) > 0 {
+			x := work[len(work)-1]
+			work = work[:len(work)-1]
+			if inLoop[x] {
+				continue
+			}
+			inLoop[x] = true
+			work = append(work, x.Preds...)
+		}
+		return b, inLoop
+	}
+	return nil, nil
+}
+
+// LoopBodyStraight: the body of the range loop over coll treats every element alike — no branch
+// inside the body skips part of it (`continue` under a condition); only rejecting exits are allowed.
+// For encoders/decoders: an element that is conditionally left out does not round-trip.
+func (r *Run) LoopBodyStraight(fnName, coll, why string) {
+	fn := r.fn(fnName)
+	if fn == nil {
+		return
+	}
+	coll = r.X(coll)
+	file, line := r.P.FnPos(fn)
+	construct := "loop over " + coll + " handles every element alike"
+	header, inLoop := r.sliceLoop(fn, coll)
+	if header == nil {
+		r.viol("K2-loop-straight", fnName, construct, "loop not found", why, file, line)
+		return
+	}
+	fi := r.P.Info(fn)
+	for _, b := range fn.Blocks {
+		if !inLoop[b] || b == header {
+			continue
+		}
+		ifi, ok := lastInstr(b).(*ssa.If)
+		if !ok {
+			continue
+		}
+		in0, in1 := inLoop[b.Succs[0]], inLoop[b.Succs[1]]
+		if in0 && in1 {
+			// an inner loop's own header is not a skip
+			if isLoopHeader(b) {
+				continue
+			}
+			f2, l2 := r.P.Pos(ifi.Cond.Pos())
+			if f2 == "" {
+				f2, l2 = file, line
+			}
+			r.viol("K2-loop-straight", fnName, construct, fmt.Sprintf("the loop over %s branches on %s inside its body (%s:%d): some elements are handled differently or skipped", coll, r.P.Env(fn).condOf(ifi.Cond), f2, l2), why, f2, l2)
+			return
+		}
+		// one edge leaves the loop: fine if it only fails
+		out := b.Succs[0]
+		if in0 {
+			out = b.Succs[1]
+		}
+		if fi.canOK[out] {
+			f2, l2 := r.P.Pos(ifi.Cond.Pos())
+			r.viol("K2-loop-straight", fnName, construct, fmt.Sprintf("the loop over %s is left early on a non-failing path (%s:%d): later elements are ignored", coll, f2, l2), why, f2, l2)
+			return
+		}
+	}
+	f2, l2 := r.P.Pos(lastInstr(header).(*ssa.If).Cond.Pos())
+	r.pass("K2-loop-straight", fnName, construct, "", why, f2, l2)
+}
